@@ -20,7 +20,9 @@ type Obligation struct {
 	Guard   Term
 	Goal    Term
 	Bounded string
-	bgLen   int // number of background assertions visible (all are; kept for debugging)
+	Splits  []Term // edge guards into the obligation's block: a failed attempt is retried per edge
+	SplitBlk []int // predecessor block of each split edge
+	Blk     int    // block the obligation belongs to (-1: whole function)
 	fv      *FuncVC
 	lemma   *lemmaVC
 }
@@ -67,6 +69,7 @@ type FuncVC struct {
 	c     *FuncContract
 	name  string
 	bg    []string
+	bgBlk []int
 	obls  []*Obligation
 	vals  map[ssa.Value]Term
 	tups  map[ssa.Value][]Term
@@ -91,6 +94,14 @@ type FuncVC struct {
 	calleesUsed map[string]bool
 	assumptions map[string]bool
 	epochN   int
+	tableFns map[ssa.Value]*tableRef
+	oblBlk   int // when >= 0: block whose ancestors are relevant for obligations being emitted (loop init edges)
+	anc      map[int]map[int]bool
+}
+
+type tableRef struct {
+	tb  *TableSpec
+	key Term
 }
 
 
@@ -103,17 +114,37 @@ func (fv *FuncVC) assume(t Term) {
 	if t == "true" {
 		return
 	}
-	fv.bg = append(fv.bg, "(assert "+implies(fv.cur, t)+")")
+	fv.addBg("(assert "+implies(fv.cur, t)+")", fv.curIdx())
 }
 
 func (fv *FuncVC) assumeAt(g, t Term) {
 	if t == "true" {
 		return
 	}
-	fv.bg = append(fv.bg, "(assert "+implies(g, t)+")")
+	fv.addBg("(assert "+implies(g, t)+")", fv.curIdx())
 }
 
-func (fv *FuncVC) define(t Term) { fv.bg = append(fv.bg, "(assert "+t+")") }
+func (fv *FuncVC) define(t Term) { fv.addBg("(assert "+t+")", fv.curIdx()) }
+
+func (fv *FuncVC) curIdx() int {
+	if fv.curBlock == nil {
+		return 0
+	}
+	return fv.curBlock.Index
+}
+
+func (fv *FuncVC) addBg(text string, blk int) {
+	fv.bg = append(fv.bg, text)
+	fv.bgBlk = append(fv.bgBlk, blk)
+}
+
+// assumeAtBlk: a fact that belongs to block blk regardless of when it is emitted (lazy heap versions).
+func (fv *FuncVC) assumeAtBlk(blk int, g, t Term) {
+	if t == "true" {
+		return
+	}
+	fv.addBg("(assert "+implies(g, t)+")", blk)
+}
 
 func (fv *FuncVC) posOf(p token.Pos) string {
 	if !p.IsValid() {
@@ -129,7 +160,7 @@ func (fv *FuncVC) oblige(kind, label string, props []string, goal Term, pos toke
 	fv.obligeAt(fv.cur, kind, label, props, goal, pos, desc, "")
 	if goal != "true" {
 		g := fv.newGuard("a")
-		fv.bg = append(fv.bg, "(assert "+implies(g, and(fv.cur, goal))+")")
+		fv.addBg("(assert "+implies(g, and(fv.cur, goal))+")", fv.curIdx())
 		fv.cur = g
 	}
 }
@@ -144,7 +175,23 @@ func (fv *FuncVC) obligeAt(guard Term, kind, label string, props []string, goal 
 	if n := fv.oblCount[base]; n > 1 {
 		name = fmt.Sprintf("%s#%d", base, n)
 	}
-	fv.obls = append(fv.obls, &Obligation{Name: name, Kind: kind, Props: props, Func: fv.name, Pos: fv.posOf(pos), Desc: desc, Guard: guard, Goal: goal, fv: fv, Bounded: bounded})
+	var splits []Term
+	var splitBlk []int
+	blk := fv.curIdx()
+	if fv.oblBlk >= 0 {
+		blk = fv.oblBlk
+	} else if b := fv.curBlock; b != nil && b.Index != 0 && fv.loops[b] == nil {
+		for _, p := range b.Preds {
+			if _, done := fv.blockEnd[p]; done && !fv.isBackEdge(p, b) {
+				splits = append(splits, sanitize(fmt.Sprintf("e_b%d_b%d", p.Index, b.Index)))
+				splitBlk = append(splitBlk, p.Index)
+			}
+		}
+		if len(splits) < 2 {
+			splits, splitBlk = nil, nil
+		}
+	}
+	fv.obls = append(fv.obls, &Obligation{Name: name, Kind: kind, Props: props, Func: fv.name, Pos: fv.posOf(pos), Desc: desc, Guard: guard, Goal: goal, fv: fv, Bounded: bounded, Splits: splits, SplitBlk: splitBlk, Blk: blk})
 }
 
 func (fv *FuncVC) unsupp(format string, a ...interface{}) {
@@ -611,4 +658,29 @@ func (fv *FuncVC) calleeContract(com *ssa.CallCommon) *FuncContract {
 		}
 	}
 	return nil
+}
+
+// ancestors: blocks from which blk is reachable along forward (non-back) edges, plus blk.
+func (fv *FuncVC) ancestors(blk int) map[int]bool {
+	if fv.anc == nil {
+		fv.anc = map[int]map[int]bool{}
+	}
+	if a, ok := fv.anc[blk]; ok {
+		return a
+	}
+	a := map[int]bool{blk: true}
+	stack := []*ssa.BasicBlock{fv.fn.Blocks[blk]}
+	for len(stack) > 0 {
+		b := stack[len(stack)-1]
+		stack = stack[:len(stack)-1]
+		for _, p := range b.Preds {
+			if fv.isBackEdge(p, b) || a[p.Index] {
+				continue
+			}
+			a[p.Index] = true
+			stack = append(stack, p)
+		}
+	}
+	fv.anc[blk] = a
+	return a
 }
